@@ -247,6 +247,19 @@ def tagtype_events(key):
         cases.append(("hexcase=mixed-pubkey", e3))
     except Exception:
         pass
+    # hex fields followed by a blank (bytes.fromhex skips it, a `$`-anchored pattern lets a line feed pass): if such
+    # an event is admitted, its frames must still be JSON and its served copies verbatim
+    for blank, bl in (("\n", "lf"), (" ", "space")):
+        e = ref.make_event(key, kind=1, created_at=T, content="tt-blank-sig-" + bl)
+        cases.append(("hexcase=sig+" + bl, dict(e, sig=e["sig"] + blank)))
+        e2 = dict(ref.make_event(key, kind=1, created_at=T, content="tt-blank-pubkey-" + bl))
+        e2["pubkey"] = e2["pubkey"] + blank
+        try:
+            e2["id"] = subm.rapid_id(e2)
+            e2["sig"] = key.sign(bytes.fromhex(e2["id"]))
+            cases.append(("hexcase=pubkey+" + bl, e2))
+        except Exception:
+            pass
     for name, ts in (("ts=1", 1), ("ts=2^31-1", 2 ** 31 - 1), ("ts=2^31", 2 ** 31), ("ts=2^32-1", 2 ** 32 - 1), ("ts=2^32", 2 ** 32), ("ts=2^63-1", 2 ** 63 - 1)):
         mk(name, kind=1, created_at=ts, content="tt-" + name)
     for name, k in (("kind=0", 0), ("kind=65535", 65535), ("kind=2^31-1", 2 ** 31 - 1), ("kind=2^32-1", 2 ** 32 - 1), ("kind=2^63-1", 2 ** 63 - 1)):
